@@ -326,7 +326,7 @@ def run(ctx):
                             "measures": v["measures"], "leaks": v["leaks"], "fail": v["fail"]}, what=what)
 
     # ---------------- (E2) task mixes: termination oracle + per-step ground truth.  Corpus scenarios run first.
-    nmix = 240 if quick else 6000
+    nmix = 600 if quick else 20000
     mjobs = []
     cdir = os.path.join(VERIF, "corpus", "C20")
     corpus = []
@@ -336,7 +336,7 @@ def run(ctx):
                 corpus.append((fn, json.load(f)))
     for i in range(nmix):
         r = ctx.rng.fork("mix/%d" % i)
-        mjobs.append((r, r.range(1, 4) if i % 4 == 0 else r.range(4, 14), i))
+        mjobs.append((r, r.range(1, 4) if i % 4 == 0 else r.range(4, 14 if quick or i % 3 else 28), i))
     def run_corpus(item):
         fn, c = item
         rc, out, err = run_script(hx, c["source"], "corpus-" + fn, args=("--snap", "--events"), timeout=1500, watchdog=600)
